@@ -48,6 +48,8 @@ SKIP_VARIANTS = [
     {'default': True, 'skip_exc': ['ValueError', 'GlomError']},
     {'skip_exc': ['@X']},
     {'default': True, 'skip_exc': ['PathAccessError']},
+    {'default': True, 'skip_exc': []},
+    {'skip_exc': []},
 ]
 
 
@@ -127,6 +129,8 @@ def gen_item(seed, tier):
                'UGlomErrInit', 'UGlomMixed', 'UGlomRewrite', 'KeyboardInterrupt', 'UserBase', 'UserKeyErr',
                'UGlomLookup', 'OverflowError', 'ArithmeticError', 'ZeroDivisionError']
     classes = rng.sample(pool, 2) + [rng.choice(special)]
+    if rng.random() < 0.12:
+        classes += ['UserErr', 'UserErrTwin']      # two unrelated classes with the same __name__
     knobs = simrun.draw_knobs(rng)
     knobs['glom_debug_env'] = rng.random() < 0.08      # GLOM_DEBUG=1 in the environment at import time
     return {'target': tgt, 'spec': spec, 'classes': classes, 'knobs': knobs}
@@ -155,7 +159,7 @@ def _one_run(G, item, plan, mode, variant=None):
             kw['default'] = sentinel
         if 'skip_exc' in variant:
             cl = tuple(k.cat.cls(n) for n in variant['skip_exc'])
-            kw['skip_exc'] = cl if len(cl) > 1 else cl[0]
+            kw['skip_exc'] = cl if len(cl) != 1 else cl[0]     # [] -> the empty tuple: matches nothing
             skip_classes = cl
         else:
             skip_classes = (G.GlomError,)
@@ -169,6 +173,8 @@ def _related(o, inj, depth=0):
         return True
     if depth > 4 or not isinstance(o, BaseException):
         return False
+    if depth == 0 and (o.__context__ is inj or o.__cause__ is inj):
+        return True         # raised while the injected exception was being handled
     for a in list(getattr(o, 'args', ())) + [getattr(o, 'exc', None)] + list(getattr(o, 'skipped', []) or []):
         if a is inj:
             return True
@@ -265,6 +271,12 @@ def eval_plan(G, item, plan, variants, stats):
                           'no translation at this site', type(o).__name__)
                     elif o is not inj_a and canon.canon_exc(o) == canon.canon_exc(inj_a):
                         V('debug-identity', f'{kind}/{xname}', 'the original exception object', 'an equal copy')
+                    elif o is not inj_a and (o.__context__ is inj_a or o.__cause__ is inj_a) \
+                            and not isinstance(o, type(inj_a)):
+                        # glom_debug=True: another exception was raised from the handler of the injected
+                        # one at a site where glom documents no translation
+                        V('documented-subtype', f'{kind}/{xname}/replaced-by-{type(o).__name__}',
+                          'no translation at this site', type(o).__name__)
                 else:
                     if o is inj_a:
                         V('documented-subtype', f'{kind}/{xname}/untranslated', want, type(o).__name__)
@@ -285,7 +297,7 @@ def eval_plan(G, item, plan, variants, stats):
         C = _one_run(G, item, plan, 'c', v)
         digests.append(C['k'].digest())
         rc = C['res']
-        vname = ('default' if v.get('default') else 'nodefault') + ':' + '+'.join(v.get('skip_exc', ['<GlomError>']))
+        vname = ('default' if v.get('default') else 'nodefault') + ':' + ('+'.join(v['skip_exc']) or '<empty-tuple>' if 'skip_exc' in v else '<GlomError>')
         if o is None:
             if rc[0] != 'ok':
                 V('default-selectivity', f'raised-where-plain-succeeds/{vname}', 'ok', canon.outcome(rc, with_text=False))
@@ -365,6 +377,16 @@ def run_case(case):
     stats = {}
     for pre in case.get('pre_plans') or []:
         _one_run(G, case['item'], pre, 'b')
+    # everything the same private instance went through before this plan (what glom remembers from
+    # earlier calls -- caches, generated classes -- is part of the schedule)
+    for h in case.get('history') or []:
+        try:
+            if h == 'discovery':
+                _one_run(G, case['item'], {}, 'b')
+            else:
+                eval_plan(G, case['item'], h[0], h[1], {})
+        except SimBudgetExceeded:
+            pass
     viols, digests = eval_plan(G, case['item'], case['plan'], case['variants'], stats)
     d = simrun.jhash(digests)
     for v in viols:
@@ -385,6 +407,19 @@ def shrink_candidates(case):
             c = copy.deepcopy(case)
             del c['variants'][i]
             yield c
+    hist = case.get('history') or []
+    if hist:
+        c = copy.deepcopy(case)
+        c['history'] = []
+        yield c
+        n = len(hist)
+        step = n // 2
+        while step >= 1:
+            for i in range(0, n, step):
+                c = copy.deepcopy(case)
+                del c['history'][i:i + step]
+                yield c
+            step //= 2
 
 
 def run_seed(seed, tier):
@@ -428,12 +463,14 @@ def run_seed(seed, tier):
                 else rng.choice(item['classes'])
             plan[f'0:{site}#{nth}'] = {'cls': cls}
         plans.append(plan)
+    hist = ['discovery']
     for plan in plans:
         variants = rng.sample(SKIP_VARIANTS, 2)
         try:
             viols, digests = eval_plan(G, item, plan, variants, stats)
         except SimBudgetExceeded:
             stats['budget_exceeded'] = stats.get('budget_exceeded', 0) + 1
+            hist.append([plan, variants])
             continue
         out['runs'] += 2 + len(variants)
         out['trace_digests'].append(simrun.jhash(digests))
@@ -442,8 +479,10 @@ def run_seed(seed, tier):
         d = simrun.jhash(digests)
         for v in viols:
             v['digest'] = d
-            out['violations'].append(dict(v, case={'prop': PROP, 'seed': seed, 'item': item, 'plan': plan,
-                                                   'variants': variants}))
+            if len(out['violations']) < 12:
+                out['violations'].append(dict(v, case={'prop': PROP, 'seed': seed, 'item': item, 'plan': plan,
+                                                       'variants': variants, 'history': list(hist)}))
+        hist.append([plan, variants])
     # ---- fault sequence across calls: an instance of a class that cannot be rebuilt, then one of the
     # same class that can (what was learnt from the first must not be applied to the second)
     if points:
@@ -452,7 +491,6 @@ def run_seed(seed, tier):
         bad, good = {key: {'cls': 'UserFlaky', 'variant': 'bad'}}, {key: {'cls': 'UserFlaky'}}
         variants = rng.sample(SKIP_VARIANTS, 1)
         try:
-            pre = []
             for plan in (bad, good, bad, good):
                 viols, digests = eval_plan(G, item, plan, variants, stats)
                 out['runs'] += 3
@@ -460,8 +498,8 @@ def run_seed(seed, tier):
                 for v in viols:
                     v['digest'] = d
                     out['violations'].append(dict(v, case={'prop': PROP, 'seed': seed, 'item': item, 'plan': plan,
-                                                           'variants': variants, 'pre_plans': list(pre)}))
-                pre.append(plan)
+                                                           'variants': variants, 'history': list(hist)}))
+                hist.append([plan, variants])
             stats['reach.fault_sequence_across_calls'] = 1
         except SimBudgetExceeded:
             pass
